@@ -120,6 +120,25 @@ MATCHES += [
   mk(ALLW & ~OM.FW_DL_VLAN, dl_vlan=100),
 ]
 
+# pairs kept apart only by a field in which one of the two has the value 0
+# (0 is a value like any other: best-effort TOS, ICMP echo reply, priority
+# code point 0, VLAN 0)
+ZERO_FROM = len(MATCHES)
+MATCHES += [
+  mk(ALLW & ~OM.FW_DL_TYPE & ~OM.FW_NW_TOS, dl_type=0x0800, nw_tos=0),
+  mk(ALLW & ~OM.FW_DL_TYPE & ~OM.FW_NW_TOS, dl_type=0x0800, nw_tos=0x20),
+  mk(ALLW & ~OM.FW_DL_TYPE & ~OM.FW_NW_PROTO & ~OM.FW_TP_SRC, dl_type=0x0800,
+     nw_proto=1, tp_src=0),
+  mk(ALLW & ~OM.FW_DL_TYPE & ~OM.FW_NW_PROTO & ~OM.FW_TP_SRC, dl_type=0x0800,
+     nw_proto=1, tp_src=8),
+  mk(ALLW & ~OM.FW_DL_VLAN_PCP, dl_vlan_pcp=0),
+  mk(ALLW & ~OM.FW_DL_VLAN_PCP, dl_vlan_pcp=5),
+  mk(ALLW & ~OM.FW_DL_VLAN, dl_vlan=0),
+  mk(ALLW & ~OM.FW_DL_TYPE & ~OM.FW_NW_PROTO, dl_type=0x0800, nw_proto=0),
+  mk(ALLW & ~OM.FW_DL_TYPE & ~OM.FW_NW_PROTO, dl_type=0x0800, nw_proto=17),
+]
+ZERO_POOL = list(range(ZERO_FROM, len(MATCHES))) + [11]   # 11: dl_vlan=100
+
 # (the priority field of an entry without wildcards is "not meaningful" in
 #  1.0, and whether two such entries that differ only in it are the same entry
 #  is not something the statement settles: the exact entry always carries the
@@ -479,11 +498,14 @@ def gen_random (rng, count, maxlen):
   SFR = OT.FF_SEND_FLOW_REM; CO = OT.FF_CHECK_OVERLAP
   for _ in range(count):
     ops = []
+    # every fourth history keeps to the pairs only a zero value separates
+    zero = rng.random() < 0.25
     for _ in range(rng.randrange(3, maxlen)):
       r = rng.random()
       if r < 0.55:
         cmd = rng.choice([0, 0, 0, 1, 2, 3, 4])
         mi = rng.randrange(len(MATCHES))
+        if zero and rng.random() < 0.8: mi = rng.choice(ZERO_POOL)
         ops.append(["fm", cmd, mi,
                     1 if mi == EXACT else rng.choice([1, 2, 2, 0x8000, 0, 0xffff]),
                     rng.choice([0, SFR, SFR, SFR | CO, CO]),
